@@ -93,13 +93,7 @@ class _Instance:
         e.g. Python language keywords (`in`, `from`, etc.),
         or Hdl21 internal "keywords" (`name`, `ports`, `signals`, etc.).
         Returns `self` to aid in method-chaining use-cases."""
-        from .bundle import AnonymousBundle
-
-        if isinstance(conn, Dict):
-            # Special-case dictionaries of connectables into Anon Bundles
-            conn = AnonymousBundle(**conn)
-        if not is_connectable(conn):
-            raise TypeError(f"{self} attempting to connect non-connectable {conn}")
+        conn = _to_connectable(self, conn)
 
         # The main event: actually stick `conn` in the `conns` dict
         if portname in self.conns:
@@ -130,6 +124,10 @@ class _Instance:
         The `replace` method is functionally identical to serial calls to `disconnect` and `connect`,
         but allows for in-place modification of the `conns` dict, e.g. while iterating over its items.
         """
+
+        # Validate (and if necessary convert) the new connection before changing anything,
+        # so that a rejected `conn` leaves the prior connection and its back-references in place.
+        conn = _to_connectable(self, conn)
 
         connref = _get_connref(self, portname)
         # Get a reference to the old connection in the `conns` dict, without removing it
@@ -302,6 +300,20 @@ class Refs:
     all: Dict[str, "PortRef"] = field(default_factory=dict)
     portrefs: Dict[str, "PortRef"] = field(default_factory=dict)
     connrefs: Dict[str, "PortRef"] = field(default_factory=dict)
+
+
+def _to_connectable(self: _Instance, conn: Any) -> Connectable:
+    """Get the `Connectable` to be stored for the `connect` or `replace` argument `conn`.
+    Dictionaries of connectables are collected into `AnonymousBundle`s.
+    Raises a `TypeError` for anything else that is not connectable."""
+    from .bundle import AnonymousBundle
+
+    if isinstance(conn, Dict):
+        # Special-case dictionaries of connectables into Anon Bundles
+        conn = AnonymousBundle(**conn)
+    if not is_connectable(conn):
+        raise TypeError(f"{self} attempting to connect non-connectable {conn}")
+    return conn
 
 
 def _get_portref(self: _Instance, key: str) -> "PortRef":
